@@ -136,17 +136,17 @@ def run(chk):
         conds = flow.conditions(p, mc, bb, T)
         c_nonempty = c_ok = c_notempty = False
         for sb, labs, term in conds:
-            if term[0] == "call" and names.is_(term[1], "Option::is_some") and "0" not in labs:
+            if term[0] == "call" and names.is_(term[1], "Option::is_some") and flow.lab_true(labs):
                 a = term[2][0]
                 if a[0] == "call" and names.is_(a[1], "Option::filter"):
                     _, ret = closure_ret(p, a[2][1][1]) if a[2][1][0] == "closure" else (None, None)
                     if flow.term_contains(a[2][0], lambda x: x == ("field", ("upvar", 1), "exclude_list")) and ret is not None and is_nonempty_pred(ret):
                         c_nonempty = True
-            if term[0] == "discr" and labs == ("0",):
+            if term[0] == "discr" and labs == ("in", "0"):
                 a = term[1]
                 if a[0] == "call" and names.is_(a[1], "Result::map") and flow.term_contains(a, lambda x: isinstance(x, tuple) and x and x[0] == "await" and names.is_(x[1], "CredentialStore::find_credentials")):
                     c_ok = True
-            if term[0] == "field" and term[2] == "0" and labs == ("0",):
+            if term[0] == "field" and term[2] == "0" and flow.lab_false(labs):
                 base = term[1]
                 if base[0] == "field" and base[2] == "as Ok" and base[1][0] == "call" and names.is_(base[1][1], "Result::map"):
                     clo = base[1][2][1]
